@@ -398,8 +398,8 @@ theorem mem_getAll (rx : Rx) (fs : FilterSet) (doc : Doc) (o : Op) :
 /-- the document's operations have distinct (method, path) keys and distinct operationIds -/
 structure WellKeyed (doc : Doc) : Prop where
   keys : ∀ o1 ∈ httpOps doc, ∀ o2 ∈ httpOps doc, o1.method = o2.method → o1.path = o2.path → o1 = o2
-  ids : ∀ o1 ∈ httpOps doc, ∀ o2 ∈ httpOps doc, ∀ id, o1.raw.operationId = some id →
-    o2.raw.operationId = some id → o1 = o2
+  ids : ∀ o1 ∈ httpOps doc, ∀ o2 ∈ httpOps doc, o1.raw.operationId.isSome = true →
+    o1.raw.operationId = o2.raw.operationId → o1 = o2
 
 theorem isHttp_of_mem_httpOps (doc : Doc) (o : Op) (h : o ∈ httpOps doc) : isHttp o.method = true := by
   simp [httpOps, List.mem_filter] at h; exact h.2
@@ -471,7 +471,7 @@ theorem keep_isSome_eq (rx : Rx) (fs : FilterSet) (doc : Doc) (hk : WellKeyed do
             simp only [List.contains_iff_mem, List.mem_filterMap] at h
             obtain ⟨o, ho, hoid⟩ := h
             have ho' := ((mem_getAll rx fs doc o).1 (hsel' ▸ ho)).1
-            exact hsel (hk.ids o ho' t htmem id hoid htid ▸ ho)
+            exact hsel (hk.ids o ho' t htmem (by simp [hoid]) (hoid.trans htid.symm) ▸ ho)
         rw [h1, h2]; rfl
   | byRef m q =>
     simp only [htgt, resolveTarget] at hres ⊢
